@@ -164,6 +164,13 @@ class LinearSegment:
             if not isinstance(physical_value, expected_type):
                 return False
 
+        if abs(self.factor) < 1e-10:
+            # the segment is constant, i.e., it only applies to a
+            # single physical value (regardless of the interval types
+            # of the limits of the internal value)
+            const_value = self.convert_internal_to_physical(self.inverse_value)
+            return abs(physical_value - const_value) <= 1e-14 * abs(const_value)
+
         if self._physical_lower_limit is not None and \
            not self._physical_lower_limit.complies_to_lower(physical_value):
             return False
